@@ -289,7 +289,7 @@ impl LogInnerManager {
                     return Ok((data_cursor, msg_count + c));
                 }
             }
-            if reader.is_empty() {
+            if reader.is_end_marker() {
                 break;
             }
         }
